@@ -350,10 +350,12 @@ func runC20(c *Ctx) {
 		ok := false
 		var got string
 		for _, call := range callsIn(cp, func(k *ssa.CallCommon) bool { return k.StaticCallee() == doReq }) {
-			t := p.TermOf(callCommon(call).Args[2])
+			// helpers of the client package are looked through (`endpoint, err := c.resolvePrimary()`)
+			t := p.XAll(p.TermOf(callCommon(call).Args[2]), func(g *ssa.Function) bool { return g == pr || g.Pkg != cp.Pkg })
 			got = t.String()
 			ok = true
 			for _, a := range t.Alts() {
+				a = a.Strip()
 				if a.Op == "const" || a.Op == "mu" {
 					continue
 				}
@@ -406,7 +408,7 @@ func runC20(c *Ctx) {
 		}
 		fn := fn
 		for _, call := range callsIn(fn, func(k *ssa.CallCommon) bool { return k.StaticCallee() == upd }) {
-			pt := p.TermOf(callCommon(call).Args[1])
+			pt := p.X(p.TermOf(callCommon(call).Args[1]))
 			// only the hooks that learn the shards from a server answer
 			if !pt.Has(func(x *Term) bool { return x.IsField("HTTPAddr", nil) }) && !strings.Contains(pt.String(), "Sprintf") {
 				continue
@@ -415,7 +417,27 @@ func runC20(c *Ctx) {
 			// primary is assigned under id == shards.LeaderId: every non-constant value that flows into the
 			// primary argument enters (through the loop's φ) on an edge dominated by that test
 			ok := false
-			if leaderOnly, any := flowsOnlyUnderLeaderTest(p, callCommon(call).Args[1], 0); any && leaderOnly {
+			// the value may be computed by a helper of the package (`primary, secondaries := splitShards(&shards)`)
+			srcs := []ssa.Value{callCommon(call).Args[1]}
+			if ex, isEx := srcs[0].(*ssa.Extract); isEx {
+				if hc, isCall := ex.Tuple.(*ssa.Call); isCall {
+					if g := hc.Call.StaticCallee(); g != nil && g.Pkg == fn.Pkg && len(g.Blocks) > 0 {
+						srcs = nil
+						for _, b := range g.Blocks {
+							if ret, isR := b.Instrs[len(b.Instrs)-1].(*ssa.Return); isR && ex.Index < len(ret.Results) {
+								srcs = append(srcs, RetVal(ret, ex.Index))
+							}
+						}
+					}
+				}
+			}
+			okAll := len(srcs) > 0
+			for _, sv := range srcs {
+				if leaderOnly, any := flowsOnlyUnderLeaderTest(p, sv, 0); !(any && leaderOnly) {
+					okAll = false
+				}
+			}
+			if okAll {
 				ok = true
 			}
 			eachInstr(fn, func(in ssa.Instruction) {
